@@ -35,8 +35,11 @@ def tmag(A):
 
 
 def check_scalars(case, rec):
-    chi = build_mps(case['chi']); psi = build_mps(case['psi'])
-    op = build_mpo(case['op']); rho = build_mpo(case['rho'])
+    sh = case.get('shifts', [0, 0, 0])
+    chi = build_mps(shifted(case['chi'], sh[0])); psi = build_mps(case['psi'])
+    op = build_mpo(shifted(case['op'], sh[1])); rho = build_mpo(shifted(case['rho'], sh[2]))
+    if any(sh):
+        rec.label('shifted_boundary_charges')
     vchi, vpsi = cvec(chi.A), cvec(psi.A)
     Mop, Mrho = cmat(op.A), cmat(rho.A)
     mchi, mpsi, mop, mrho = tmag(chi.A), tmag(psi.A), tmag(op.A), tmag(rho.A)
@@ -66,9 +69,18 @@ def check_scalars(case, rec):
     rec.nontrivial = bool(vals['operator_inner_product'] and max(bonds) >= 2)
 
 
+def shifted(desc, c):
+    """Same state with every bond quantum number shifted by c (the sparsity rule only involves differences)."""
+    d = dict(desc)
+    d['qD'] = [[q + c for q in qs] for qs in desc['qD']]
+    return d
+
+
 def check_vdot(case, rec):
     fam = case['fam']
-    a = build_mps(fam['mps'][0]); b = build_mps(fam['mps'][1])
+    a = build_mps(shifted(fam['mps'][0], case.get('shift', 0))); b = build_mps(fam['mps'][1])
+    if case.get('shift', 0):
+        rec.label('different_leading_charges')
     va, vb = cvec(a.A), cvec(b.A)
     mag = tmag(a.A) * tmag(b.A)
     got = ptn.vdot(a, b)
@@ -86,8 +98,16 @@ def check_vdot(case, rec):
 
 
 @st.composite
+def gen_scalars(draw, tier):
+    c = draw(matrix_element_triple(Lmax=5 if tier == 'quick' else 6, dense_cap=1024))
+    c['shifts'] = [draw(st.sampled_from([0, 0, 2, -1])) for _ in range(3)]
+    return c
+
+
+@st.composite
 def gen_vdot(draw, tier):
-    return {'fam': draw(sector_family(n_mps=2, n_mpo=0, Lmax=5 if tier == 'quick' else 6, dmax=4, Dmax=5, dense_cap=1024))}
+    return {'fam': draw(sector_family(n_mps=2, n_mpo=0, Lmax=5 if tier == 'quick' else 6, dmax=4, Dmax=5, dense_cap=1024)),
+            'shift': draw(st.sampled_from([0, 0, 1, -3, 65536]))}
 
 
 # ---- local operators --------------------------------------------------------------------
@@ -188,7 +208,7 @@ def gen_local(draw, tier):
 
 
 PARTS = [
-    Part('scalars', check_scalars, strategy=lambda tier: matrix_element_triple(Lmax=5 if tier == 'quick' else 6, dense_cap=1024),
+    Part('scalars', check_scalars, strategy=lambda tier: gen_scalars(tier),
          n={'quick': 250, 'thorough': 4000}, workers={'quick': 4, 'thorough': 16}),
     Part('vdot', check_vdot, strategy=gen_vdot, n={'quick': 200, 'thorough': 3000}, workers={'quick': 2, 'thorough': 16}),
     Part('local_operators', check_local, strategy=gen_local, n={'quick': 120, 'thorough': 2500}, workers={'quick': 4, 'thorough': 16}),
